@@ -167,7 +167,7 @@ def _value_to_cst(value: Any) -> cst.BaseExpression:  # noqa: C901
         return _make_int_literal(value)
     if isinstance(value, float):
         return _make_float_literal(value)
-    if isinstance(value, str):
+    if isinstance(value, str) and not tu.is_enum(type(value)):
         return cst.SimpleString(repr(value))
     if isinstance(value, bytes):
         return cst.SimpleString(repr(value))
